@@ -1532,8 +1532,7 @@ def check_C06(ctx):
             elif status == 'inconclusive':
                 ctx.rep.notes.append('cbmc(%s): %s — the bounded run says nothing about this source; not a violation' % (fn, detail))
             elif status in ('error', 'timeout'):
-                ctx.rep.violation({'kind': 'cbmc', 'function': fn, 'bound': n, 'status': status, 'detail': detail, 'command': ' '.join(cmd),
-                                   'explanation': 'cbmc could not complete on the current sources (%s): the bounded exploration of %s is not available' % (status, fn)}, found_input=False)
+                ctx.rep.notes.append('cbmc(%s): %s (%s) — the bounded run is not available for this source; not a violation (the sanitizer, guard-page and read-extent runs do not depend on it)' % (fn, status, str(detail)[-200:].replace('\n', ' ')))
         ctx.rep.notes.append('cbmc 6.11 bounded runs: ' + '; '.join('%s N=%d %s %.0fs' % (c[1], c[2], st, sec) for c, st, d, sec, cmd in res))
     # (d) linear work: instruction counts (callgrind) on adversarial shapes at n, 2n, 4n
     import subprocess
